@@ -80,8 +80,12 @@ func (p *Parser) Parse(source string) (Node, error) {
 		tokenizer.ApplyWhitespaceControl()
 	}
 
-	// Return the tokenizer to the pool
-	ReleaseTokenizer(tokenizer)
+	// The token slice aliases the pooled tokenizer's buffer: keep the tokenizer
+	// until parsing is done, and never hand its buffer to another pool
+	defer func() {
+		p.tokens = nil
+		ReleaseTokenizer(tokenizer)
+	}()
 
 	if err != nil {
 		return nil, fmt.Errorf("tokenization error: %w", err)
@@ -93,13 +97,8 @@ func (p *Parser) Parse(source string) (Node, error) {
 	// Parse tokens into nodes
 	nodes, err := p.parseOuterTemplate()
 	if err != nil {
-		// Clean up token slice on error
-		ReleaseTokenSlice(p.tokens)
 		return nil, fmt.Errorf("parsing error: %w", err)
 	}
-
-	// Clean up token slice after successful parsing
-	ReleaseTokenSlice(p.tokens)
 
 	return NewRootNode(nodes, 1), nil
 }
